@@ -446,7 +446,8 @@ CHECKS["C09"]["runs"] = CHECKS["C09"]["runs"] + [dict([r for r in CHECKS["C11"][
 # SegmentMaxSize in the fMP4 write path (VP9: the sample payload is the frame itself, symbolically and natively)
 MAXSZ = _mx("run.mux.fmp4.vp9.maxsize", 2, 0, 5, 6, ["end", "cut", "size-limit", "decode-segment"], VCODEC=2, VKINDS=2, SEGMAXSIZE=60, SYMMAXSIZE=1)
 MAXSZLL = _mx("run.mux.ll.vp9.maxsize", 3, 0, 4, 4, ["end", "size-limit"], VCODEC=2, VKINDS=2, SEGMAXSIZE=60, SYMMAXSIZE=1)
-CHECKS["C18"]["runs"] = CHECKS["C18"]["runs"] + [MAXSZ, MAXSZLL]
+MAXSZTS = _mx("run.mux.ts.maxsize", 1, 0, 5, 6, ["end", "cut", "size-limit"], VKINDS=2, SEGMAXSIZE=90, SYMMAXSIZE=1)
+CHECKS["C18"]["runs"] = CHECKS["C18"]["runs"] + [MAXSZ, MAXSZLL, MAXSZTS]
 
 WSTEP = {"name": "step.window", "files": [G + "c04_step.go"] + MUX, "fn": "VerifH_C04_step", "workers": 16, "params_quick": {"MAXMSN": 99999}, "params_thorough": {"MAXMSN": 1073741824},
          "reach": ["rotated", "evicted", "end"], "budget_quick": 900, "budget_thorough": 7200, "qtimeout": 60000}
@@ -472,6 +473,10 @@ def _bf(name, variant):
             "params": {"VARIANT": variant, "TRACKS": 0, "BFRAMES": 1}, "reach": ["end", "cut"], "budget_quick": 600, "budget_thorough": 3600}
 for pid in ("C01", "C02"):
     CHECKS[pid]["runs"] = CHECKS[pid]["runs"] + [_bf("run.mux.ts.bframes", 1), _bf("run.mux.fmp4.bframes", 2)]
+# round-5 seeds: reordered frames under C03 (EXTINF from DTS), the Opus run under C09, the fill step under C10 (byte-range chains)
+CHECKS["C03"]["runs"] = CHECKS["C03"]["runs"] + [_bf("run.mux.ts.bframes", 1)]
+CHECKS["C09"]["runs"] = CHECKS["C09"]["runs"] + [dict(OPUS, name="mux.fmp4.opus", prop="C01")]
+CHECKS["C10"]["runs"] = CHECKS["C10"]["runs"] + [dict([r for r in CHECKS["C11"]["runs"] if r["name"] == "step.fill"][0], name="step.fill.byteranges", prop="C11")]
 # three parts in one file (a middle part: offset > 0 and data after it), few operations
 CHECKS["C17"]["runs"] = CHECKS["C17"]["runs"] + [
     {"name": "run.storage.equiv.3parts", "dir": "pkg/storage", "files": [S + "c17_storage.go", "rt/fs_model.go"], "fn": "VerifH_C17_storage", "workers": 16,
